@@ -55,8 +55,8 @@ def build(kind, sample):
 
 def q(v, unit=1.0):
     r = v / unit
-    if not math.isfinite(r) or abs(r) > 2 ** 30:
-        return 2 ** 30 if (r > 0 or not math.isfinite(r)) else -2 ** 30
+    if not math.isfinite(r) or abs(r) > 2 ** 27:
+        return 2 ** 27 if (r > 0 or not math.isfinite(r)) else -2 ** 27       # (products of a few of these stay inside 32 bits)
     return int(round(r))
 
 
